@@ -1,16 +1,17 @@
 package vsym
 
 import (
-	"crypto/x509/pkix"
-	"time"
 	"crypto"
 	"crypto/rand"
 	"crypto/rsa"
 	"crypto/x509"
+	"crypto/x509/pkix"
+	"encoding/hex"
 	"errors"
 	"io"
 	"math/big"
 	"sync"
+	"time"
 )
 
 // SymSigner is the harness signer.  Under the executor Sign is a model: the signature is an
@@ -58,7 +59,6 @@ func (s *SymSigner) Sign(r io.Reader, digest []byte, opts crypto.SignerOpts) ([]
 	return sig, err
 }
 
-
 // Cert returns a certificate for the key of signer with the given serial magnitude (big-endian,
 // no leading zero).  Natively it is a real self-signed certificate (so it parses); under the
 // executor Raw is an opaque symbolic byte string of CertRawLen bytes and RawIssuer a 3-byte DER
@@ -79,7 +79,14 @@ var (
 func issue(s *SymSigner, serial *big.Int, subject pkix.Name) *x509.Certificate {
 	caOnce.Do(func() {
 		caKey = keyFor("vsym-ca")
-		tmpl := &x509.Certificate{SerialNumber: big.NewInt(1), Subject: pkix.Name{CommonName: "vsym CA"},
+		// the CA's common name comes from the model (input "ca.cn": 7 letters) so that issuer bytes
+		// are the same under the executor and natively
+		load()
+		cn := "vsymACA"
+		if b, err := hex.DecodeString(m.Bytes["ca.cn"]); err == nil && len(b) == 7 {
+			cn = string(b)
+		}
+		tmpl := &x509.Certificate{SerialNumber: big.NewInt(1), Subject: pkix.Name{CommonName: cn},
 			NotBefore: time.Unix(1600000000, 0), NotAfter: time.Unix(2500000000, 0), IsCA: true, BasicConstraintsValid: true, KeyUsage: x509.KeyUsageCertSign}
 		der, err := x509.CreateCertificate(rand.Reader, tmpl, tmpl, &caKey.PublicKey, caKey)
 		if err != nil {
